@@ -259,6 +259,26 @@ def check_lift_max(ctx, K, d, es, n):
         ctx.violation("residual.jet_lift_max", f"K={K}, num_tcoeffs={n}: got num_args {lr.num_tcoeffs_in_args}; model lift_by={b}", case)
 
 
+def check_lift_max_inadmissible(ctx, K, d, es, n):
+    """jet_lift_max with too few coefficients for the ODE (num_tcoeffs <= order: lift_by would be negative): rejected with a
+    ValueError, at construction or at the first evaluation - never a silently usable constraint (seeded change C11-s11)"""
+    import jax.numpy as jnp
+
+    ode = make_ode(es, K, d)
+    case = {"check": "jet_lift_max:inadmissible", "K": K, "num_tcoeffs": n}
+    ctx.case(case)
+    ctx.count("lift_max:inadmissible")
+    try:
+        lo = ode.jet_lift_max(num_tcoeffs=n)
+        lo.vector_field(jet_coords=[jnp.full((d,), 0.25 * (i + 1)) for i in range(n)], t=0.5)
+    except ValueError:
+        return
+    except Exception as e:  # noqa: BLE001
+        ctx.violation("ode.jet_lift_max:inadmissible", f"K={K}, num_tcoeffs={n}: raised {type(e).__name__} instead of ValueError", case)
+        return
+    ctx.violation("ode.jet_lift_max:inadmissible", f"K={K}, num_tcoeffs={n} (fewer coefficients than the ODE needs) was accepted and evaluated", case, theorem="Pdq.C11.lift_range")
+
+
 # ------------------------------------------------------------------------------------------------
 # constraint constructors: values
 
@@ -657,6 +677,7 @@ def run(ctx):
     for i in range(ctx.n(3, 20)):
         K = int(rng.choice([1, 2]))
         check_lift_max(ctx, K, 2, exprs.gen_field(rng, K, 2, time_dep=True, max_deg=2), K + 1 + int(rng.integers(0, 4)))
+        check_lift_max_inadmissible(ctx, K, 2, exprs.gen_field(rng, K, 2, time_dep=True, max_deg=2), int(rng.integers(1, K + 1)))
 
     for i in range(ctx.n(3, 30)):
         check_ts1_taylor_point(ctx)
